@@ -63,8 +63,9 @@ ASSUMPTIONS = [
     "by the argument iterator itself are not modelled",
 ]
 RULE = ("corpus scenarios first, then random walks generated online against the implementation "
-        "(per-property operation profile, one PRNG per trace derived from VERIF_SEED), thorough tier "
-        "adds injection sweeps; a trace is non-trivial if at least one pool task started and ended; "
+        "(per-property operation profile, one PRNG per trace derived from VERIF_SEED), injection "
+        "sweeps (the property's critical operation placed before every label of a base run; a few "
+        "in the quick tier, many in the thorough one); a trace is non-trivial if at least one pool task started and ended; "
         "distinct = distinct label sequences")
 
 PROFILES = {
